@@ -7,6 +7,7 @@ def dispatch (j : Json) : R Json := do
   | "ping" => pure (Json.mkObj [("ok", Json.str "pong")])
   | "interp" => opInterp j
   | "interp_cache" => opInterpCache j
+  | "model" => opModel j
   | _ => throw s!"unknown op {op}"
 
 partial def loop (hin hout : IO.FS.Stream) : IO Unit := do
